@@ -1139,7 +1139,7 @@ func genFunctionWrapper(n *node) func(*frame) reflect.Value {
 
 		return reflect.MakeFunc(funcType, func(in []reflect.Value) []reflect.Value {
 			// Allocate and init local frame. All values to be settable and addressable.
-			fr := newFrame(f, len(def.types), f.runid())
+			fr := newCallFrame(f, len(def.types))
 			d := fr.data
 			for i, t := range def.types {
 				d[i] = reflect.New(t).Elem()
@@ -2089,7 +2089,7 @@ func getFunc(n *node) {
 
 		fct := reflect.MakeFunc(n.typ.TypeOf(), func(in []reflect.Value) []reflect.Value {
 			// Allocate and init local frame. All values to be settable and addressable.
-			fr2 := newFrame(fr, len(n.types), fr.runid())
+			fr2 := newCallFrame(fr, len(n.types))
 			d := fr2.data
 			for i, t := range n.types {
 				d[i] = reflect.New(t).Elem()
